@@ -444,6 +444,48 @@ class SameAnswerTheSecondTime(Contract):
         return {"second_answer_equals_the_first": And(*same)}
 
 
+class YamlBatch(Contract):
+    """run_scenarios_from_yaml runs the simulations of one file one after the other: each is handed the horizon and the
+    country list of the file's settings block and its own options - whatever the simulations before it contained
+    (here: the first simulation carries a horizon of its own and extra keys, the second does not).  The runner enters
+    as a recorder."""
+    prop = "C14"
+    file = "src/scenarios/run_scenarios_from_yaml.py"
+    func = "run_scenarios_from_yaml"
+    name = "each_simulation_of_a_file_gets_the_files_settings_whatever_came_before"
+    replayable = False
+
+    def inputs(self, S):
+        n_settings, n_first = S.int("settings_NMONTHS"), S.int("first_simulations_own_NMONTHS")
+        S.assume(And(n_settings >= 1, n_first >= 1))
+        first = {"title": "first", "scale": "country", "NMONTHS": unwrap(n_first), "shutoff": "immediate"}
+        second = {"title": "second", "scale": "country", "shutoff": "continued"}
+        self.second_before = dict(second)
+        cfg = {"settings": {"countries": ["AAA", "BBB"], "NMONTHS": unwrap(n_settings)}, "simulations": {"one": first, "two": second}}
+        log = self.log = []
+
+        def run(interp, ctx, fv, args, kwargs):
+            opt = kwargs.get("scenario_option")
+            log.append(dict(options=dict(opt) if isinstance(opt, dict) else opt, countries=kwargs.get("countries_list"), title=kwargs.get("title")))
+            return None
+
+        RM = "src/scenarios/run_model_no_trade.py"
+        self.summaries = {(RM, "ScenarioRunnerNoTrade.__init__"): lambda *a, **k: None,
+                          (RM, "ScenarioRunnerNoTrade.run_model_no_trade"): run}
+        return dict(args=[cfg, False, False, False], n=n_settings)
+
+    def ensures(self, S, a, res):
+        log = self.log
+        if len(log) != 2 or not all(isinstance(r["options"], dict) for r in log):
+            return {"every_simulation_is_run_once_in_order": V(False)}
+        two = log[1]["options"]
+        rest = {k: v for k, v in two.items() if k != "NMONTHS"}
+        return {"every_simulation_is_run_once_in_order": V([r["title"] for r in log] == ["first", "second"]),
+                "later_simulation_gets_the_settings_horizon": V(two.get("NMONTHS")) == a["n"],
+                "later_simulation_gets_the_settings_countries": V(list(log[1]["countries"] or []) == ["AAA", "BBB"]),
+                "later_simulation_keeps_exactly_its_own_options": V(rest == self.second_before)}
+
+
 def _c10_resettings():
     from contracts import C10
     from contracts.common import relabelled
@@ -452,7 +494,7 @@ def _c10_resettings():
 
 # (the conversion tables follow the CURRENT settings only, whatever was converted under earlier settings: C10's
 # contract, re-run under this property - a memo keyed on part of the settings would survive into the next run)
-CONTRACTS = [Reestablished(), InitialisedBeforeRead(), SharedOptionsNotWritten(), SameAnswerTheSecondTime()] + _c10_resettings()
+CONTRACTS = [Reestablished(), InitialisedBeforeRead(), SharedOptionsNotWritten(), SameAnswerTheSecondTime(), YamlBatch()] + _c10_resettings()
 EXTRA = [persistent_writes, class_level_mutables, files_written_are_never_read, first_thing_a_run_does]
 TRUSTED = [
     "CBC, numpy and pandas are deterministic functions of their inputs; the data files are not modified between runs",
